@@ -9,6 +9,7 @@ import Genq.Model.Codec
 import Genq.Model.CodecSkel
 import Genq.Extracted.Codec
 import Genq.Proofs.CodecRT
+import Genq.Proofs.CodecImg
 namespace Genq.Types
 
 section Lemmas
@@ -140,6 +141,22 @@ theorem C06_typename_once_model (fs : Flds) (vs : List Val) (tn : String) :
   have := (List.mem_filter.1 hkv).2
   simpa using this
 
+/-- **C06_roundtrip_of_decoded_model** — the first sentence of C06 on the model, for EVERY input: whatever JSON
+    value `j` the generated decoder accepts for a response type `t`, marshaling the decoded value and decoding again
+    yields that value — up to `norm`, which turns a nil list handled through json.RawMessage into an empty one
+    (known finding F-02) and changes nothing else.  Hypotheses on the TYPE only: no fold twins (excluded point:
+    F-02t) and `TyOK` — one Go type per response key within a struct and its embedded fragments (excluded point:
+    F-06k), implementations are structs whose `__typename` field is a string (what genqlient generates).  In the
+    model the three known findings are therefore the only ways a decoded value can fail to come back. -/
+theorem C06_roundtrip_of_decoded_model (t : Ty) (j : J) (v : Val) (hok : TyOK t) (hf : noFoldTwins t = true)
+    (h : dec t j = .ok v) : dec t (enc t v) = .ok (norm t v) :=
+  roundtrip_of_decoded t j v hok hf h
+
+/-- every decoded value has the decoded shape (canonical leaves, one JSON per key, `__typename` fields equal to
+    the dispatched name, non-null under pointers) — the lemma the previous theorem rests on -/
+theorem C06_decoded_values_are_wellformed (t : Ty) (j : J) (v : Val) (hok : TyOK t) (h : dec t j = .ok v) : WFn t v :=
+  (imT t j v hok h).1
+
 section Witness
 /-- `user { pet { name } ...A }` with `fragment A on User { pet { age } }` -/
 def tPetName : Ty := .struct (.cons "name" false (.leaf .str) .nil)
@@ -180,6 +197,11 @@ def vEx : Val := .struct [.leaf (.str "u1"), .struct [.leaf (.str "u1"), .ptr (.
   .slice [.iface "Dog" (.struct [.leaf (.str "Dog"), .leaf (.bool true)]), .nilIface]]
 
 example : noFoldTwins tEx = true := by decide
+example : TyOK tEx := by
+  simp [TyOK, FldsOK, ImplsOK, ImplTyOK, SameKeyTy, TypenameIsStr, closureFields, embFields, isStructTy, tEx, tDog, tCat]
+example : norm tEx vEx = vEx := rfl
+-- what `norm` does: the F-02 point
+example : norm (.struct (.cons "xs" false (.slice (.iface .nil)) .nil)) (.struct [.nilSlice]) = .struct [.slice []] := rfl
 example : dec tEx (enc tEx vEx) = .ok vEx := rfl
 example : dec tEx (.obj [("id", .str "u1"), ("nick", .str "n"), ("pets", .arr [.obj [("__typename", .str "Dog"), ("barks", .bool true)], .null])]) = .ok vEx := rfl
 end Witness
